@@ -64,6 +64,7 @@ Record Inv (s : st) : Prop := mkInv {
   i_vars : forall r, vin s (F r) = rin s r /\ vin s (R r) = rin s r;
   i_vb : forall r, rin s r = true ->
          (vlb s (F r), vub s (F r), (vlb s (R r), vub s (R r))) = split_bounds (lb s r) (ub s r);
+  i_vabs : forall n, vin s n = false -> vlb s n = NInf /\ vub s n = PInf;
   i_rows : forall m, cin s m = min s m;
   i_co : forall m r, co s m (F r) = (if rin s r && min s m then sto s r m else q0) /\
                      co s m (R r) = (if rin s r && min s m then (- sto s r m)%Qc else q0);
@@ -89,9 +90,9 @@ Definition WF (s : st) : Prop :=
   (forall m r, back s m r = true -> min s m = true /\ rin s r = true /\ sto s r m <> q0).
 
 Lemma Inv_LPSync s : Inv s -> LPSync s.
-Proof. intros [A B C D E _ _ _ _ _]. repeat split; try apply A; try apply C; try apply D; try apply E; auto. Qed.
+Proof. intros [A B _ C D E _ _ _ _ _]. repeat split; try apply A; try apply C; try apply D; try apply E; auto. Qed.
 Lemma Inv_WF s : Inv s -> WF s.
-Proof. intros [_ _ _ _ _ A B _ _ _]. split; assumption. Qed.
+Proof. intros [_ _ _ _ _ _ A B _ _ _]. split; assumption. Qed.
 
 Lemma init_Inv rs ms : Inv (init_u rs ms).
 Proof.
@@ -101,6 +102,6 @@ Qed.
 
 (* the context stack plays no role in the invariant *)
 Lemma Inv_ctx s c : Inv s -> Inv (set_ctx s c).
-Proof. intros [A B C D E G H I J K]. constructor; cbn; assumption. Qed.
+Proof. intros [A B B' C D E G H I J K]. constructor; cbn; assumption. Qed.
 Lemma Inv_record s u : Inv s -> Inv (record u s).
 Proof. intros H. unfold record. destruct (ctx s); [exact H|apply Inv_ctx, H]. Qed.
